@@ -14,6 +14,7 @@
 #     void   guard(1: string s) throws (1: Oops e),
 #     string multi(1: string s) throws (1: Oops e, 2: Denied d),
 #     string join(1: string s, 2: string t, 3: i32 n, 4: bool f),
+#     string whoami(),
 #   }
 #
 from thrift.Thrift import TType, TMessageType, TApplicationException, TProcessor
@@ -98,6 +99,9 @@ class Iface(object):
     def join(self, s, t, n, f):
         pass
 
+    def whoami(self):
+        pass
+
 
 class Client(Iface):
     """The Thrift library-style blocking client (used only to validate this
@@ -174,6 +178,13 @@ class Client(Iface):
             return r.success
         raise TApplicationException(TApplicationException.MISSING_RESULT, "join failed: unknown result")
 
+    def whoami(self):
+        self._send('whoami', whoami_args())
+        r = self._recv(whoami_result())
+        if r.success is not None:
+            return r.success
+        raise TApplicationException(TApplicationException.MISSING_RESULT, "whoami failed: unknown result")
+
 
 class Processor(Iface, TProcessor):
     def __init__(self, handler):
@@ -186,6 +197,7 @@ class Processor(Iface, TProcessor):
         self._processMap["guard"] = Processor.process_guard
         self._processMap["multi"] = Processor.process_multi
         self._processMap["join"] = Processor.process_join
+        self._processMap["whoami"] = Processor.process_whoami
         self._on_message_begin = None
 
     def on_message_begin(self, func):
@@ -330,6 +342,24 @@ class Processor(Iface, TProcessor):
             msg_type = TMessageType.EXCEPTION
             result = TApplicationException(TApplicationException.INTERNAL_ERROR, 'Internal error')
         self._finish("join", msg_type, result, seqid, oprot)
+
+    def process_whoami(self, seqid, iprot, oprot):
+        args = whoami_args()
+        args.read(iprot)
+        iprot.readMessageEnd()
+        result = whoami_result()
+        try:
+            result.success = self._handler.whoami()
+            msg_type = TMessageType.REPLY
+        except TTransport.TTransportException:
+            raise
+        except TApplicationException as ex:
+            msg_type = TMessageType.EXCEPTION
+            result = ex
+        except Exception:
+            msg_type = TMessageType.EXCEPTION
+            result = TApplicationException(TApplicationException.INTERNAL_ERROR, 'Internal error')
+        self._finish("whoami", msg_type, result, seqid, oprot)
 
     def process_guard(self, seqid, iprot, oprot):
         args = guard_args()
@@ -550,6 +580,31 @@ class join_result(TBase):
 
 all_structs.append(join_result)
 join_result.thrift_spec = (
+    (0, TType.STRING, 'success', 'UTF8', None, ),
+)
+
+
+class whoami_args(TBase):
+    __slots__ = ()
+
+    def __init__(self):
+        pass
+
+
+all_structs.append(whoami_args)
+whoami_args.thrift_spec = (
+)
+
+
+class whoami_result(TBase):
+    __slots__ = ('success',)
+
+    def __init__(self, success=None):
+        self.success = success
+
+
+all_structs.append(whoami_result)
+whoami_result.thrift_spec = (
     (0, TType.STRING, 'success', 'UTF8', None, ),
 )
 fix_spec(all_structs)
